@@ -16,21 +16,22 @@ PROP = {
   "saml2_tophat.population:Population.stale_sources_for_person",
   "saml2_tophat.cache:Cache.receivers",
   "saml2_tophat.population:Population.get_entityid",
-  "saml2_tophat.population:Population.add_information_about_person[typed-store]"
+  "saml2_tophat.population:Population.add_information_about_person[typed-store]",
+  "saml2_tophat.cache:Cache.subjects"
  ],
  "bounded": [
   "cache_history"
  ],
  "level": "other",
- "explanation": "Deductive part (dict model of the store): Cache.set stores under exactly code(name_id) / entity_id with the given expiry and touches no other subject and no other source of the subject; Cache.get returns a copy of exactly that entry, raises ToOld exactly when expiry checking is on and the expiry is 0 or has passed; Cache.active, Cache.delete (everything about the subject, nothing else), Cache.reset; time_util.before/after against the clock ghost. Population.get_info_from and Population.remove_person (the wrappers the client calls on login / logout) carry the same clauses, checked against the Cache contracts. Cache.entities and its wrappers Population.issuers_of_info / sources return exactly the sources stored for the subject (one entry each); Population.stale_sources_for_person reports only sources that were asked about or that the cache holds for this subject (which of them -- those not active -- is decided inside a filtering comprehension the engine over-approximates). Cache.receivers (the IdP-side name of entities) carries the entities clause; Population.get_entityid reads an identifier only out of the entry of exactly the asked subject and source, answers the empty string for an unknown one and never reads an expired entry when checking is on. Population.add_information_about_person (variant [typed-store]: under the store's object invariant and a session dict holding a NameID, a string issuer and an expiry) stores the session under exactly its subject and issuer with its expiry and touches no other subject; for that Cache.set additionally guarantees that a first-seen subject gets a fresh mapping. Cache.get_identity (union over sources via set/list conversions), entities, subjects and the shelve-backed variant are NOT verified deductively: BOUNDED exhaustive operation histories against a reference model under a frozen clock, labelled bounded. Distinct subjects have distinct keys by the C18 encoding (assumed here).",
+ "explanation": "Deductive part (dict model of the store): Cache.set stores under exactly code(name_id) / entity_id with the given expiry and touches no other subject and no other source of the subject; Cache.get returns a copy of exactly that entry, raises ToOld exactly when expiry checking is on and the expiry is 0 or has passed; Cache.active, Cache.delete (everything about the subject, nothing else), Cache.reset; time_util.before/after against the clock ghost. Population.get_info_from and Population.remove_person (the wrappers the client calls on login / logout) carry the same clauses, checked against the Cache contracts. Cache.entities and its wrappers Population.issuers_of_info / sources return exactly the sources stored for the subject (one entry each); Population.stale_sources_for_person reports only sources that were asked about or that the cache holds for this subject (which of them -- those not active -- is decided inside a filtering comprehension the engine over-approximates). Cache.receivers (the IdP-side name of entities) carries the entities clause; Population.get_entityid reads an identifier only out of the entry of exactly the asked subject and source, answers the empty string for an unknown one and never reads an expired entry when checking is on. Population.add_information_about_person (variant [typed-store]: under the store's object invariant and a session dict holding a NameID, a string issuer and an expiry) stores the session under exactly its subject and issuer with its expiry and touches no other subject; for that Cache.set additionally guarantees that a first-seen subject gets a fresh mapping. Cache.subjects returns one fresh identifier per stored subject. Cache.get_identity (union over sources via set/list conversions) and the shelve-backed variant are NOT verified deductively: BOUNDED exhaustive operation histories against a reference model under a frozen clock, labelled bounded. Distinct subjects have distinct keys by the C18 encoding (assumed here).",
  "assumptions": [
   "E-SHELVE",
   "E-CLOCK"
  ],
  "not_decided": [
-  "Cache.get_identity / subjects as deductive obligations; which sources stale_sources_for_person reports (filter over-approximated)",
+  "Cache.get_identity as deductive obligations (items() of a symbolic dict, set values: outside the engine's subset); which sources stale_sources_for_person reports (filter over-approximated)",
   "observation: for expiry 0 with non-empty data active() answers True while get() raises ToOld (0 means \"no limit\" for one and \"already expired\" for the other); the statement does not fix the meaning of 0",
   "Population.add_information_about_person: verified as the variant [typed-store] (stored for the subject of the session, under its issuer, with the session's expiry; other subjects untouched; only the store's dicts written); that the caller's own session_info dict is untouched is NOT stated (unknown in both solvers); callers verified for C02 still use the weaker assumed contract",
-  "Cache.subjects (decode of every key)"
+  "Cache.subjects: only \"one fresh identifier per stored subject\" is discharged; WHICH identifier (decode of the key) rests on the assumed ident.decode contract and the bounded ident_history / cache_history"
  ]
 }
